@@ -1,6 +1,6 @@
 From Coq Require Import Extraction ExtrOcamlBasic.
-From IV Require Import Base.Bytes Model.Addr Model.IpLit.
+From IV Require Import Base.Bytes Model.Addr Model.IpLit Model.AddrSpec.
 Extraction Language OCaml.
 Extraction "c04_model.ml" conv_anchor parse_email parse_email_validated parse_mailbox_name validate_domain
   canonical_domain extract_mailbox new_recipient read_name read_sites pop3_user_flow mailbox_for_address_is_extract
-  case_variant plain lower ip_inner is_bracketed go_parse_ip.
+  case_variant plain lower ip_inner is_bracketed go_parse_ip ordinary_name.
